@@ -18,7 +18,7 @@ TECHNIQUE = 'property-based testing: generated directory trees materialised on d
 LEVEL_TEXT = 'exploration: generated directory specs (sort-sensitive names, empty folders, zero-byte files, equal names in several folders, generated mtimes)'
 RULE = (
     "case = (directory spec: nesting <= 4, empty folders, names from a pool with upper/lower case, digits, dots, "
-    "dashes, spaces, non-ASCII letters, the same name in several folders, file sizes 0..5000, generated mtimes; "
+    "dashes, spaces, non-ASCII letters (also not NFC-normalised), the same name in several folders, file sizes 0..5000, generated mtimes; "
     "sort on/off), materialised in a per-case temporary directory. Oracle: spec and tree are walked together (name "
     "sets, is_dir, size == os.stat().st_size, mdate == os.stat().st_mtime, with sort: files by code-point name then "
     "directories by name); then save -> FileSystemTree.load must preserve class, names, flags, sizes, mdates and "
@@ -35,7 +35,10 @@ ASSUMPTIONS = [
 
 NAMES = ["a.txt", "B.txt", "b.txt", "Z", "_x", "10", "9", "ä.txt", "Ärger", "file-1", "file 2", ".hidden", "README", "Makefile", "zeta.PY", "App",
          # names that are prefixes of each other / contain characters that sort around quotes and brackets
-         "lib", "lib64", "v1", "v10", "notes", "notes (copy)", "it's.txt", "src", "src-old", "a]b", "a'b"]
+         "lib", "lib64", "v1", "v10", "notes", "notes (copy)", "it's.txt", "src", "src-old", "a]b", "a'b",
+         # legal names that are not in Unicode normal form C (decomposed accent, Ohm / Angstrom sign): the tree
+         # carries the name as it is on disk
+         "e\u0301.txt", "\u2126", "\u212b.dat", "cafe\u0301"]
 
 
 def materialise(spec, path):
